@@ -340,6 +340,15 @@ class Report:
                 "KNOWN-FINDING: property=%s %s %s (seen %d times)"
                 % (self.prop_id, "/".join(key), hit.get("text", ""), cnt)
             )
+        # replay artefacts always belong to the latest run: drop what an earlier run left behind
+        rdir = os.path.join(REPLAY_DIR, self.prop_id)
+        if os.path.isdir(rdir):
+            for fn in os.listdir(rdir):
+                if fn.endswith(".json"):
+                    try:
+                        os.remove(os.path.join(rdir, fn))
+                    except OSError:
+                        pass
         if unknown:
             rc = EXIT_VIOLATION
             os.makedirs(os.path.join(REPLAY_DIR, self.prop_id), exist_ok=True)
